@@ -197,10 +197,13 @@ def run(ctx):
         contains = ctx.find_calls(f, r"HashSet::<.*>::contains")
         nexts = [b2 for b2, t2 in ctx.find_calls(f, r"Iterator>::next$")]
         fw = ctx.find_calls(f, r"Accumulator::finish_with$")
-        ok = len(seen_ins) == 1 and len(contains) == 1
-        if ok:
+        ok = len(seen_ins) == 1 and len(contains) <= 1
+        if ok and contains:
             reach = f.reachable(contains[0][0], False, avoid={seen_ins[0][0]})
             ok = not any(n in reach for n in nexts) and not any(b2 in reach for b2, _ in fw)
+        elif ok:
+            # `seen_keys.insert(key)` is itself the test: it must not stand behind a test of the value
+            ok = all(not any(re.search(r"\.1\)?=|from_meta\(", a_) and "from_path(" not in a_ for a_ in d) for d in ctx.pc_strs(f, seen_ins[0][0]))
         ctx.ob("C02.P.map-key-remembered", f.key, "seen-set separate from the result map, updated on every path", ok,
                "a repeated key must be reported even when its earlier occurrence had a rejected value: the key has to be recorded in a seen-set on every path, not only when the value was inserted")
     # every leaf carries its outer-to-inner location path: construction and hand-down of paths (shared with C04)
